@@ -432,7 +432,12 @@ var errorFatalExceptions = map[string]string{
 	"(*pogreb.datalog).openSegment->pogreb.readGobFile": "a missing or unreadable segment meta is tolerated (logged): the meta is rebuilt by recovery or starts empty",
 	"(*pogreb.datalog).removeSegment->FileSystem.Remove": "the meta side file may not exist (never written before the first Close): os.IsNotExist is tolerated for it, any other error is returned",
 	"(*pogreb.DB).recover->pogreb.removeRecoveryBackupFiles": "left-over *.bac files are harmless (ignored by Open, removed by the next recovery): the failure is logged",
-	"(*pogreb.recoveryIterator).next->(*pogreb.segmentIterator).next": "a damaged or torn tail (io.EOF / io.ErrUnexpectedEOF / errCorrupted) is not a failure of recovery: the segment is truncated there (C08); which errors count as a damaged tail is checked by the gates rule",
+}
+
+// errorFatalOtherThanSentinels: steps whose sentinel errors are handled as part of normal operation (reviewed elsewhere);
+// the failure explored for them is "an error that is none of the sentinels" (an I/O error), which must still be fatal.
+var errorFatalOtherThanSentinels = map[string]string{
+	"(*pogreb.recoveryIterator).next->(*pogreb.segmentIterator).next": "a damaged or torn tail (io.EOF / io.ErrUnexpectedEOF / errCorrupted) is not a failure of recovery: the segment is truncated there (which errors count as a damaged tail is checked by the gates rule); any other error of the segment iterator is",
 }
 
 // sentinelsOf: the sentinel error variables a module function can return ("*": something that is not tracked).
@@ -589,6 +594,9 @@ func ruleErrorFatal(entries ...string) ruleFn {
 				// the failing step cannot have returned a sentinel it never returns: comparisons of an error with such a
 				// sentinel are false on the explored paths
 				sent := sentinelsAt(p, s)
+				if _, other := errorFatalOtherThanSentinels[construct]; other {
+					sent = map[string]bool{} // the failure is none of the sentinels
+				}
 				w := &IPWalk{P: p, StartFailed: true, FailedIsNot: func(gl string) bool {
 					// the failure explored is a real error: not the iterators' "done" signal, and not a sentinel the
 					// failing step never returns
